@@ -337,8 +337,9 @@ def gen_dict_case(rng):
         # other stack users between filling d.value and d.update(): a second
         # Dict, a hash-map variable store, a stack variable declared later
         vf2 = gen_struct(rng, 4)
-        extra = dict(vf2=vf2, vals2=[sx(rng.getrandbits(64), f)
-                                     for f in vf2],
+        extra = dict(vf2=vf2, vals2=[sx(rng.choice(
+            [rng.getrandbits(64), 0x80000000, 0xffffffff, 0x90000000,
+             0xdeadbeef, 0x100000000]), f) for f in vf2],
                      lfmt=rng.choice("BHIQ"), lval=rng.getrandbits(8) | 1,
                      key2=rng.getrandbits(31))
         for _ in range(rng.randint(1, 4)):
